@@ -2,7 +2,7 @@
    Django's Context layer stack, render ids and component_context_cache), deepening C01 / C03 / C05, which are decided
    against the lexically scoped reference renderer S (Core/Sem.v).  Proofs in Core/MechProofs.v.
    Every run also compares M with the implementation and M with S on generated programs (harness/c01m.py). *)
-From DJC Require Import Lib.Base Core.Syntax Core.Sem Core.Mech Core.MechProofs Core.MechDjango.
+From DJC Require Import Lib.Base Core.Syntax Core.Sem Core.Mech Core.MechProofs Core.MechDjango Core.MechIsoProv.
 From DJC Require Gen.C01M.
 From Coq Require Import String.
 Local Open Scope string_scope.
@@ -101,7 +101,8 @@ Print Assumptions unfilled_slot_renders_own_default_mech.
    binders are identifiers that shadow no visible name and no internal key; one name for the slots flagged `default`
    per template.
    _partial - NOT covered by the proof (covered by the per-run comparison M vs S and M vs implementation only):
-   django mode (see mech_refines_sem_django_partial below); {% for %}; {% provide %} / inject; the default= alias ({{ default }} SlotRef); slot tags and is_filled
+   django mode (see mech_refines_sem_django_partial below); {% provide %} / inject (see
+   mech_refines_sem_isolated_provide_partial below); {% for %}; the default= alias ({{ default }} SlotRef); slot tags and is_filled
    tests written inside the body of a component tag (pass-through slots). *)
 Theorem mech_refines_sem_isolated_partial : forall p fuel,
   wf_prog p = true -> mout_of (mrender_prog fuel p) = embed (render_prog fuel p).
@@ -121,6 +122,19 @@ Theorem mech_refines_sem_django_partial : forall p fuel,
   wf_prog_django p = true -> mout_of (mrender_prog fuel p) = embed (render_prog fuel p).
 Proof. exact mech_refines_sem_django_lemma. Qed.
 Print Assumptions mech_refines_sem_django_partial.
+
+(* Isolated mode, the fragment WIDENED by {% provide %} and inject() (wf_prog_prov = wf_prog + provide tags anywhere:
+   page, templates, slot defaults, component-tag bodies, fill content, any key - a non-identifier key raises in both
+   models - + get_context_data calling inject() with or without default).  This is C05's "inject returns the nearest
+   enclosing provide of the rendered structure" at mechanism level: S's provider environment (nearest first; for fill
+   content: the providers around the slot, then those around the component tag) = M's _DJC_INJECT__<key> entries as
+   they travel through ProvideNode's layer, make_isolated_context_copy, the layer SlotNode.render pushes
+   (Context.flatten()), snapshots, + provide_cache.  (provide_cache entry LIFETIME is C05's Provide model, not M.)
+   _partial: for / default= alias / pass-through slots are not covered. *)
+Theorem mech_refines_sem_isolated_provide_partial : forall p fuel,
+  wf_prog_prov p = true -> mout_of (mrender_prog fuel p) = embed (render_prog fuel p).
+Proof. exact mech_refines_sem_isolated_provide_lemma. Qed.
+Print Assumptions mech_refines_sem_isolated_provide_partial.
 
 (* ---------- non-vacuity ---------- *)
 (* a program of the fragment: nested components, a slot nested in another slot's default, a required slot, the default
@@ -153,6 +167,34 @@ Example refinement_premise_satisfiable :
   wf_prog ex_prog = true /\
   mout_of (mrender_prog 30 ex_prog) = MOk (s2n "P:{<Vfill:VaV<deepA-default[implicit]False>True>V}").
 Proof. vm_compute. split; reflexivity. Qed.
+
+(* provide / inject: fill content injects the provider around the SLOT (INNER) before the one around the tag (PAGE); a
+   provide written between the component tag and the fill does not reach the fill content (NOPB); after the inner
+   provide block the page-level one is back; slot default content sees the inner one ([V]); outside: the default *)
+Definition ex_i : cdef :=
+  {| c_tpl := [TText (s2n "["); TOut (EVar (s2n "d")); TText (s2n "]")];
+     c_data := [(s2n "d", DInject (s2n "pa") (s2n "f") (Some (s2n "DF")))] |}.
+Definition ex_j (dflt : option str) : cdef :=
+  {| c_tpl := [TOut (EVar (s2n "e"))]; c_data := [(s2n "e", DInject (s2n "pb") (s2n "f") dflt)] |}.
+Definition ex_c : cdef :=
+  {| c_tpl := [TProvide (s2n "pa") [(s2n "f", EVar (s2n "v"))]
+                 [TSlot (s2n "s") false false [] [TComp (s2n "i") [] false []]];
+               TComp (s2n "i") [] false []];
+     c_data := [(s2n "v", DKw (s2n "a"))] |}.
+Definition ex_prov (dflt : option str) : prog :=
+  {| p_lib := [(s2n "c", ex_c); (s2n "i", ex_i); (s2n "j", ex_j dflt)];
+     p_page := [TProvide (s2n "pa") [(s2n "f", EStr (s2n "PAGE"))]
+                  [TComp (s2n "c") [(s2n "a", EStr (s2n "INNER"))] false
+                     [TProvide (s2n "pb") [(s2n "f", EStr (s2n "B"))]
+                        [TFill (EStr (s2n "s")) None None [TComp (s2n "i") [] false []; TComp (s2n "j") [] false []]]];
+                   TComp (s2n "c") [(s2n "a", EVar (s2n "p"))] false []];
+                TComp (s2n "i") [] false []];
+     p_ctx := [(s2n "p", VStr (s2n "V"))]; p_mode := Isolated |}.
+Example provide_refinement_premise_satisfiable :
+  wf_prog_prov (ex_prov (Some (s2n "NOPB"))) = true /\
+  mout_of (mrender_prog 30 (ex_prov (Some (s2n "NOPB")))) = MOk (s2n "[INNER]NOPB[PAGE][V][PAGE][DF]") /\
+  wf_prog_prov (ex_prov None) = true /\ mout_of (mrender_prog 30 (ex_prov None)) = MErr EKey.
+Proof. vm_compute. repeat split; reflexivity. Qed.
 
 (* django mode: the inner component reads the outer component's variable e, fill content reads the inner component's d,
    the page-level fill reads outer's e - dynamic scoping, same in M and S *)
